@@ -351,7 +351,7 @@ func c04CleanupGen(t *rapid.T) any {
 	n := 1 + uniform(t, "nclients", 6)
 	for i := 0; i < n; i++ {
 		s := c04GenScn(t, false)
-		if s.Launch == "reattach" {
+		if s.Launch == "runner" {
 			s.Launch = "cmd"
 		}
 		if s.Behaviour == "frozen" && !pct(t, "keepfrozen", 30) {
@@ -388,7 +388,7 @@ func c04CleanupRun(ci any) (out Outcome) {
 			ps.After = AfterSpec{Mode: "never"}
 		}
 		cc := HostCfg{LegacyVersion: 1, Legacy: &set, Allowed: []string{"netrpc", "grpc"}, Mux: s.Proto == "grpcmux"}.clientConfig()
-		cc.Managed = true
+		cc.Managed = s.Launch != "reattach"
 		if s.Behaviour == "badhandshake" {
 			cc.Cmd = fakeCmd(FakeSpec{Steps: []FakeStep{{Op: "out", Data: []byte("garbage\n")}, {Op: "forever"}}})
 		} else {
@@ -400,6 +400,18 @@ func c04CleanupRun(ci any) (out Outcome) {
 		h, _, err := dispense(cl, "p")
 		if cc.Cmd.Process != nil {
 			x.pid = cc.Cmd.Process.Pid
+		}
+		if s.Launch == "reattach" && err == nil {
+			// the managed client is one that reattached to a plugin some other (unmanaged) client started
+			out.label("managed-reattached-client")
+			c2 := HostCfg{LegacyVersion: 1, Legacy: &set, Allowed: []string{"netrpc", "grpc"}}.clientConfig()
+			c2.Managed = true
+			c2.Reattach = cl.ReattachConfig()
+			first := cl
+			defer func() { go first.Kill() }()
+			cl = plugin.NewClient(c2)
+			x.cl = cl
+			h, _, err = dispense(cl, "p")
 		}
 		if s.Behaviour != "badhandshake" && err != nil {
 			out.violate("could not start managed client %d (%+v): %v", i, s, firstLine(err))
